@@ -674,6 +674,7 @@ func RunC05(r *ev.Run) {
 			fmt.Printf("  loop:%-15s depth %d histories %d  %.1fs\n", s.Name, d, n, time.Since(t).Seconds())
 		}
 	}
+	RunDryToggle(r) // DryRun toggled by a reload, on the real goroutines (c05_toggle.go)
 	r.Set("traces_validated_against_impl", nloop)
 	r.Set("bounds", bounds)
 }
